@@ -57,9 +57,9 @@ Proof.
 Qed.
 
 (* ---------- Allocate on a 5-tuple that already has an allocation ---------- *)
-Theorem allocate_existing cfg s src tid c tr lt fam df rp a uid :
+Theorem allocate_existing cfg s src tid c tr lt fam df rp ep rt mt a uid :
   authenticate cfg s c = AuthOK uid -> find_alloc src (allocs s) = Some a ->
-  step cfg s (EReq src tid c (RqAllocate tr lt fam df rp) false) =
+  step cfg s (EReq src tid c (RqAllocate tr lt fam df rp ep rt mt) false) =
     (s, if (a_tid a =? tid)%N then [Success src MAllocate tid (a_cache a)] else [Error src MAllocate tid 437%N false]).
 Proof.
   intros Ha Hf. cbn [step]. rewrite Ha. unfold h_allocate. rewrite Hf. destruct (a_tid a =? tid)%N; reflexivity.
@@ -107,12 +107,12 @@ Theorem gone_is_gone_relay cfg s relay from d :
 Proof. intros Hf. cbn [step]. unfold h_peer. rewrite Hf. reflexivity. Qed.
 
 (* a new allocation starts with empty tables whatever the relay port served before *)
-Theorem new_allocation_is_empty cfg s src tid c tr lt fam df rp s' acts attrs :
-  step cfg s (EReq src tid c (RqAllocate tr lt fam df rp) false) = (s', acts) ->
+Theorem new_allocation_is_empty cfg s src tid c tr lt fam df rp ep rt mt s' acts attrs :
+  step cfg s (EReq src tid c (RqAllocate tr lt fam df rp ep rt mt) false) = (s', acts) ->
   In (Success src MAllocate tid attrs) acts -> find_alloc src (allocs s) = None ->
   exists a, allocs s' = allocs s ++ [a] /\ a_perms a = [] /\ a_chans a = [].
 Proof.
-  intros H Hin Hn. destruct (allocate_success _ _ _ _ _ _ _ _ _ _ _ _ _ H Hin Hn) as (a & relay & H1 & _ & _ & H4 & H5 & _).
+  intros H Hin Hn. destruct (allocate_success _ _ _ _ _ _ _ _ _ _ _ _ _ _ _ _ H Hin Hn) as (a & relay & H1 & _ & _ & H4 & H5 & _).
   exists a. auto.
 Qed.
 
@@ -188,3 +188,46 @@ Theorem out_of_range_rejected cfg s src tid uid n p a :
   owned_alloc s src uid = Some a -> valid_chan n = false ->
   h_channel_bind cfg s src tid uid (APresent n) (Some (PeerOk p)) = (s, [Error src MChannelBind tid 400%N false]).
 Proof. intros Ho Hv. unfold h_channel_bind. rewrite Ho, Hv. reflexivity. Qed.
+
+(* ---------- EVEN-PORT and RESERVATION-TOKEN ---------- *)
+(* an Allocate with EVEN-PORT that succeeds got an even relayed port, reports the minted token, and records the
+   reservation of the next-higher port for 30 s *)
+Theorem allocate_evenport cfg s src tid c tr lt fam df rp rt mt s' acts attrs :
+  step cfg s (EReq src tid c (RqAllocate tr lt fam df rp true rt mt) false) = (s', acts) ->
+  In (Success src MAllocate tid attrs) acts -> find_alloc src (allocs s) = None ->
+  exists p, rp = Some p /\ N.even p = true /\ In (SToken mt) attrs /\
+            rsvs s' = rsvs s ++ [{| r_tok := mt; r_port := p; r_dl := now s + rsv_lifetime |}].
+Proof.
+  cbn [step]. intros H Hin Hnone.
+  destruct (authenticate cfg s c) as [uid|code ch] eqn:Ha; [|inversion H; subst; cbn in Hin; intuition discriminate].
+  unfold h_allocate in H. rewrite Hnone in H.
+  repeat (dmatch H; try (inversion H; subst; cbn in Hin; intuition discriminate)).
+  all: inversion H; subst; cbn in Hin; destruct Hin as [Hin|[Hin|[]]]; try discriminate; inversion Hin; subst.
+  all: eexists; cbn; repeat split; eauto.
+  all: match goal with E : (true && negb _) = false |- _ => cbn in E; destruct (N.even _) eqn:Ev; [reflexivity|discriminate] end.
+Qed.
+
+(* an Allocate carrying a well-sized RESERVATION-TOKEN succeeds only without EVEN-PORT, for a token with a live
+   reservation, and on exactly the reserved port (the one above the even port) *)
+Theorem allocate_with_token cfg s src tid c tr lt fam df rp ep t mt s' acts attrs :
+  step cfg s (EReq src tid c (RqAllocate tr lt fam df rp ep (APresent t) mt) false) = (s', acts) ->
+  In (Success src MAllocate tid attrs) acts -> find_alloc src (allocs s) = None ->
+  ep = false /\ exists r, find_rsv t (rsvs s) = Some r /\ rp = Some (r_port r + 1)%N.
+Proof.
+  cbn [step]. intros H Hin Hnone.
+  destruct (authenticate cfg s c) as [uid|code ch] eqn:Ha; [|inversion H; subst; cbn in Hin; intuition discriminate].
+  unfold h_allocate in H. rewrite Hnone in H.
+  repeat (dmatch H; try (inversion H; subst; cbn in Hin; intuition discriminate)).
+  all: match goal with E : match find_rsv ?t ?l with _ => _ end = inl _ |- _ =>
+         destruct (find_rsv t l) as [r|] eqn:Fr; [|discriminate]; inversion E; subst; clear E end.
+  all: split; [reflexivity|]; exists r; split; [reflexivity|].
+  all: match goal with E : negb (_ =? _)%N = false |- _ => apply Bool.negb_false_iff, N.eqb_eq in E; subst; reflexivity end.
+Qed.
+
+(* reservations expire exactly 30 s after they were made: a tick keeps one iff the new time is before its deadline *)
+Theorem reservation_expiry s dt s' acts r :
+  h_tick s dt = (s', acts) -> (In r (rsvs s') <-> In r (rsvs s) /\ now s + Z.max 0 dt < r_dl r).
+Proof.
+  unfold h_tick. destruct (tick_allocs (now s + Z.max 0 dt) (allocs s)) as [l evs]. intros H. inversion H; subst; clear H. cbn.
+  rewrite filter_In. split; intros [A B]; split; auto; lia.
+Qed.
